@@ -63,7 +63,7 @@ def run(ctx):
     # programs ending in a shadowing / string / default-argument line first; bounded
     progs.sort(key=canon)
     rnd.shuffle(progs)
-    progs = progs[: (60 if quick else 1200)]
+    progs = progs[: (60 if quick else 240)]
     laid = [layout(p) for p in progs]
     recs = []
     for i, (src, occ, spell) in enumerate(laid):
